@@ -108,7 +108,7 @@ pub fn c14(a: &Args) -> CaseSet {
     let names: Vec<String> = (0..MAX_OPS).map(|k| format!("o{}", (b'a' + (k / 26) as u8) as char) + &((b'a' + (k % 26) as u8) as char).to_string()).collect();
     // table: operator k has priority k (distinct priorities: any permutation of <= 32 operators is realisable)
     let tb: Vec<OpSpec> = (0..MAX_OPS).map(|k| OpSpec::bin(&names[k], k as i64, false)).collect();
-    let var = |i: usize| format!("v{:03}", i);
+    let var = |i: usize| format!("v{:04}", i);
     let mut add_chain = |cs: &mut CaseSet, ops: Vec<usize>, family: &'static str, which: usize| {
         let n = ops.len() + 1;
         let mut text = var(0);
@@ -149,6 +149,13 @@ pub fn c14(a: &Args) -> CaseSet {
             let ops = mk_ops(&mut r, n - 1, pattern);
             add_chain(&mut cs, ops, "boundary-lengths", pattern + li);
         }
+    }
+    // very long chains (more than 32 machine words of operands), flat route only (the deep form of such a chain from
+    // to_deepex nests once per operator: known finding F10)
+    for (hi, &n) in (if a.thorough { vec![2047usize, 2048, 2049, 2113, 4100] } else { vec![2049usize] }).iter().enumerate() {
+        let ops = mk_ops(&mut r, n - 1, 5 + hi % 2);
+        add_chain(&mut cs, ops, "very-long-chains", 4 * hi);
+        let last = cs.cases.len() - 1; cs.cases[last].model = false;   // oracle only: the reference on 2000+ operands; the model is not evaluated in Coq at this size
     }
     // random orders, all four routes, at lengths where one level has > 20 and > 128 operators
     for rep in 0..a.n.max(1) {
@@ -647,6 +654,51 @@ pub fn c10(a: &Args) -> CaseSet {
             cs.add(&tb, p, vec![Query::Vars], "unknown binary name".into(), "unknown-name", 2, |obs| (Some(obs[0] == Obs::E), pretty_obs(&obs[0])));
         }
     }
+    // the named helper methods of DeepEx (.sin(), .abs(), ... 23 of them) and the overloads & | ^ %: each is the
+    // application of the operator of that name
+    {
+        let tb = float_table();
+        let names = ["abs", "sin", "cos", "tan", "sinh", "cosh", "tanh", "asin", "acos", "atan", "signum", "log", "log2", "log10", "ln", "round", "floor", "ceil", "exp", "sqrt", "cbrt", "fract", "trunc"];
+        for (ni, name) in names.iter().enumerate() {
+            let Some(op) = (0..tb.len()).find(|k| tb[*k].repr == *name && tb[*k].unary) else { continue };
+            for (ti, text) in ["x*y", "x", "2+x", "cos(x)+1"].iter().enumerate() {
+                if !(a.thorough || (ni + ti) % 2 == 0) { continue }
+                let base = if ti % 2 == 0 { Prog::Deep(text.to_string()) } else { Prog::Flat(text.to_string()) };
+                set_table(&tb);
+                let f = FE::parse_wo_compile(Box::leak(text.to_string().into_boxed_str())).unwrap();
+                use exmex::Express;
+                let vars: Vec<String> = f.var_names().to_vec(); let nv = vars.len();
+                let want = tun(op, f.eval(&symvals(nv)).unwrap());
+                add_expect(&mut cs, &tb, Prog::HelperUn(name.to_string(), Box::new(base.clone())), vec![Query::Vars, Query::Eval(nv)], format!("{text} .{name}()"), "named-helpers", 2, &want, &vars);
+                // twice, and another helper on top
+                let other = names[(ni + 7) % names.len()];
+                if let Some(op2) = (0..tb.len()).find(|k| tb[*k].repr == other && tb[*k].unary) {
+                    let want2 = tun(op2, want.clone());
+                    add_expect(&mut cs, &tb, Prog::HelperUn(other.to_string(), Box::new(Prog::HelperUn(name.to_string(), Box::new(base)))), vec![Query::Vars, Query::Eval(nv)], format!("{text} .{name}().{other}()"), "named-helpers", 3, &want2, &vars);
+                }
+            }
+        }
+        let tb1 = std_tables()[1].clone();
+        for (tbx, opname) in [(&tb, "^"), (&tb1, "&"), (&tb1, "%"), (&tb, "%"), (&tb, "|")] {
+            let texts = [("x+1", "y*2"), ("x", "x"), ("2", "y")];
+            for (ta, tbt) in texts {
+                set_table(tbx);
+                let (fa, fb) = (FE::parse_wo_compile(Box::leak(ta.to_string().into_boxed_str())), FE::parse_wo_compile(Box::leak(tbt.to_string().into_boxed_str())));
+                let (Ok(fa), Ok(fb)) = (fa, fb) else { continue };
+                let prog = Prog::HelperBin(opname.to_string(), Box::new(Prog::Deep(ta.to_string())), Box::new(Prog::Flat(tbt.to_string())));
+                use exmex::Express;
+                match (0..tbx.len()).find(|k| tbx[*k].repr == opname && tbx[*k].bin.is_some()) {
+                    Some(op) => {
+                        let mut vars: Vec<String> = fa.var_names().iter().chain(fb.var_names().iter()).cloned().collect(); vars.sort(); vars.dedup();
+                        let remap = |f: &FE| -> Term { let own: Vec<String> = f.var_names().to_vec(); let vals: Vec<Term> = own.iter().map(|v| Term::Var(vars.iter().position(|w| w == v).unwrap())).collect(); f.eval(&vals).unwrap() };
+                        let want = tbin(op, remap(&fa), remap(&fb));
+                        add_expect(&mut cs, tbx, prog, vec![Query::Vars, Query::Eval(vars.len())], format!("({ta}) {opname} ({tbt})"), "named-helpers", 3, &want, &vars);
+                    }
+                    None => { cs.add(tbx, prog, vec![Query::Vars], format!("({ta}) {opname} ({tbt}): no such operator"), "named-helpers", 2, |obs| (Some(obs[0] == Obs::E), pretty_obs(&obs[0]))); }
+                }
+            }
+        }
+    }
     // stacks of unary applications: every sequence of three applications over three unary operators (with repetitions at
     // distance one and two) on a leaf, on a sum and on texts that already carry unary operators, deep and flat
     {
@@ -836,7 +888,20 @@ pub fn c13(a: &Args) -> CaseSet {
             let mut fam: Vec<Fam> = vec![];
             let ok = |t: Term, v: Vec<String>| Some((t, v));
             for (k, o) in tb.iter().enumerate() {
-                if o.bin.is_some() { continue }     // the claim is about unary-only operators and constants
+                if o.bin.is_some() {
+                    // binary names: another case of the same letters is not that operator
+                    if is_alpha_name(&o.repr) {
+                        let name = o.repr.clone();
+                        let cap: String = { let mut c = name.chars(); match c.next() { Some(f) => if f.is_uppercase() { f.to_lowercase().collect::<String>() + c.as_str() } else { f.to_uppercase().collect::<String>() + c.as_str() }, None => String::new() } };
+                        for w0 in [name.to_uppercase(), cap] { for suffix in ["", "well", "_1"] {
+                            let w = format!("{w0}{suffix}");
+                            if w0 == name || tb.iter().any(|p| w.starts_with(p.repr.as_str())) { continue }
+                            fam.push((w.clone(), ok(Term::Var(0), vec![w.clone()]), "other-case-is-variable"));
+                            fam.push((format!("{w}+1"), ok(tbin(0, Term::Var(0), lit("1")), vec![w]), "other-case-is-variable"));
+                        } }
+                    }
+                    continue     // the other claims are about unary-only operators and constants
+                }
                 let name = o.repr.clone();
                 if is_alpha_name(&name) {
                     for ext in ["4", "x", "_", "α", "Z9", "ω", "Ω", "Α", "z", "Z", "A", "a", "0", "9", "ωt", "Ωmega"] {   // both ends of every character class
@@ -859,6 +924,19 @@ pub fn c13(a: &Args) -> CaseSet {
                     fam.push((name.clone(), ok(Term::Cst(k), vec![]), "exact-name-applies"));
                     fam.push((format!("({name})"), ok(Term::Cst(k), vec![]), "exact-name-applies"));
                     fam.push((format!("{name} + 1"), ok(tbin(0, Term::Cst(k), lit("1")), vec![]), "exact-name-applies"));
+                }
+                // the same letters in another case are another name: a variable (unless the table has that spelling too,
+                // or a binary-capable / longer name matches a prefix of it)
+                if is_alpha_name(&name) {
+                    let cap: String = { let mut c = name.chars(); match c.next() { Some(f) => if f.is_uppercase() { f.to_lowercase().collect::<String>() + c.as_str() } else { f.to_uppercase().collect::<String>() + c.as_str() }, None => String::new() } };
+                    for w in [name.to_uppercase(), name.to_lowercase(), cap] {
+                        if w == name || tb.iter().any(|p| p.repr == w) { continue }
+                        if tb.iter().any(|p| p.bin.is_some() && w.starts_with(p.repr.as_str())) { continue }
+                        if tb.iter().any(|p| w.starts_with(p.repr.as_str())) { continue }
+                        fam.push((w.clone(), ok(Term::Var(0), vec![w.clone()]), "other-case-is-variable"));
+                        fam.push((format!("2*{w}"), ok(tbin(2, lit("2"), Term::Var(0)), vec![w.clone()]), "other-case-is-variable"));
+                        fam.push((format!("1+{w}*2"), ok(tbin(0, lit("1"), tbin(2, Term::Var(0), lit("2"))), vec![w]), "other-case-is-variable"));
+                    }
                 }
                 // truncations are variables (unless some name matches a prefix of them)
                 if name.chars().count() > 1 && is_alpha_name(&name) {
@@ -939,10 +1017,20 @@ pub fn c15(a: &Args) -> CaseSet {
             }
         }
     }
+    // unary operators directly on literals, unfolded and folded, also without any variable
+    for text in ["-7", "sin 2", "x*-2+y-sin(0)*x", "-3*-x", "--4+x", "sin -sin 3", "-(2+3)*x", "2*-3", "x+-1*x"] {
+        for p in [Prog::FlatWo(text.into()), Prog::Flat(text.into())] {
+            let n = if text.contains('y') { 2 } else if text.contains('x') { 1 } else { 0 };
+            cs.add(&tb, p, vec![Query::Eval(n), Query::EvalVec(n)], format!("corpus: {text}"), "unary-on-literal", 2, |obs| {
+                match (&obs[0], &obs[1]) {
+                    (Obs::T(t), Obs::TC(t2, _)) => if t != t2 { (Some(false), format!("eval_vec {} differs from eval {}", t2.pretty(), t.pretty())) } else { (Some(true), String::new()) },
+                    _ => (Some(false), format!("{} / {}", pretty_obs(&obs[0]), pretty_obs(&obs[1]))) } });
+        }
+    }
     for (wi, w) in words.iter().enumerate() {
         let ops = ["+", "*", "-", "/", "&"];
         let mut text = String::new();
-        for (i, l) in w.iter().enumerate() { if i > 0 { text.push_str(ops[r.below(ops.len())]); } if r.chance(1, 6) { text.push_str("2*") } if r.chance(1, 8) { text.push_str("sin ") } text.push_str(names[*l]); }
+        for (i, l) in w.iter().enumerate() { if i > 0 { text.push_str(ops[r.below(ops.len())]); } if r.chance(1, 6) { text.push_str("2*") } if r.chance(1, 8) { text.push_str(["-3*", "sin 2*", "--4*", "-sin -5*"][r.below(4)]) } if r.chance(1, 8) { text.push_str("sin ") } text.push_str(names[*l]); }
         let mut vars: Vec<String> = w.iter().map(|l| names[*l].to_string()).collect(); vars.sort(); vars.dedup();
         let n = vars.len();
         let occ: Vec<u64> = vars.iter().map(|v| w.iter().filter(|l| names[**l] == v).count() as u64).collect();
